@@ -184,6 +184,20 @@ def check_multi(recipe) -> list[Fail]:
                 frames = list(ml.CartesianGeometry.yield_from_xyz(io.StringIO(text)))
             if len(frames) != len(geoms):
                 return [Fail("multi:frame-count-differs", f"{entry}: {len(geoms)} -> {len(frames)}")]
+            if entry == "geom":
+                # the strict parser itself, ALL blocks collected first and looked at afterwards (list(read_xyz(f)), blocks[-1] ...)
+                from molli.parsing import read_xyz
+
+                blocks = list(read_xyz(io.StringIO(text)))
+                if len(blocks) != len(geoms):
+                    return [Fail("multi:parser-block-count-differs", f"{len(geoms)} -> {len(blocks)}")]
+                for i, (g, b_) in enumerate(zip(geoms, blocks)):
+                    cb = np.array(b_.coords, dtype=float).reshape((len(b_.atoms), 3))
+                    if b_.n_atoms != g.n_atoms or len(b_.atoms) != g.n_atoms:
+                        return [Fail("multi:collected-parser-block-differs:count", f"block {i} of {len(blocks)}: {g.n_atoms} atoms written, block has {len(b_.atoms)} / declares {b_.n_atoms}")]
+                    co = np.asarray(g.coords, dtype=float)
+                    if any(not _close(float(x), float(y)) for x, y in zip(co.ravel(), cb.ravel())):
+                        return [Fail("multi:collected-parser-block-differs:coordinates", f"block {i} of {len(blocks)} (sizes {[x.n_atoms for x in geoms]})")]
             for i, (g, f) in enumerate(zip(geoms, frames)):
                 _cmp_geom(g.atoms, g.coords, f, fails, "multi", f"{entry} frame {i} of {len(geoms)} (sizes {[x.n_atoms for x in geoms]})")
                 if fails:
